@@ -220,6 +220,21 @@ static J gen_fold(Chooser &ch)
         J &list = f["composition models"];
         list.a.insert(list.a.begin() + static_cast<long>(ch.index(list.size() + 1)), t);
       }
+  // ... and 25% of the continental plates a 'random' composition model (what it paints is a draw, what its operation does to the
+  // compositions it does not list is the same rule)
+  for (size_t i = 0; i < w.feats.size(); ++i)
+    if (w.feats[i].type == "continental plate" && ch.chance(25))
+      {
+        J &f = w.root["features"][i];
+        J t = J::obj();
+        t["model"] = "random";
+        t["compositions"] = J::arr({J(static_cast<int>(ch.range(0, 5)))});
+        t["min value"] = J::arr({J(0.25)}); t["max value"] = J::arr({J(0.75)});
+        if (ch.chance(70)) t["operation"] = ch.pick<std::string>({"replace", "replace defined only", "add", "subtract"});
+        if (!f.has("composition models")) f["composition models"] = J::arr();
+        J &list = f["composition models"];
+        list.a.insert(list.a.begin() + static_cast<long>(ch.index(list.size() + 1)), t);
+      }
   J c = J::obj();
   c["world"] = w.root.dump();
   c["queries"] = g::gen_queries(ch, w, static_cast<int>(ch.range(2, 10)), 92);
@@ -280,8 +295,8 @@ static Result check_fold(const J &c)
               if (in_range(m, type, depth))
                 {
                   const std::string op = m.has("operation") ? m.at("operation").str() : "replace";
-                  const bool water = m.at("model").str() == "tian water content";
-                  ops.insert(std::string(water ? "c(water):" : "c:") + op);
+                  const bool water = m.at("model").str() == "tian water content" || m.at("model").str() == "random";
+                  ops.insert(std::string(water ? (m.at("model").str() == "random" ? "c(random):" : "c(water):") : "c:") + op);
                   for (int n = 0; n < 6; ++n)
                     {
                       bool listed = false;
@@ -309,7 +324,7 @@ static Result check_fold(const J &c)
       if (!close_rel(out[0], T, 1e-12))
         return Result::fail("fold-temperature", "temperature " + fmt(out[0]) + ", in-order fold of the covering features " + std::to_string(cov.size()) + " gives " + fmt(T) + "; query " + q.dump());
       for (int n = 0; n < 6; ++n)
-        if (!comp_known[n]) r.classes.push_back("composition painted by a water model (not asserted)");
+        if (!comp_known[n]) r.classes.push_back("composition painted by a water / random model (not asserted)");
         else if (!close_rel(out[1 + static_cast<size_t>(n)], comp[n], 1e-12, 1e-13))
           return Result::fail("fold-composition", "composition " + std::to_string(n) + " is " + fmt(out[1 + static_cast<size_t>(n)]) + ", in-order fold gives " + fmt(comp[n]) + "; query " + q.dump());
       const std::string got_tag = tag_string(*W, out.back());
